@@ -197,6 +197,41 @@ func runC20(c *Ctx, r *Report, tier string) {
 		if nUpd == 0 {
 			r.Fail("MINIMUM", cn, "best-so-far update", "", "no loop-carried minimum updated with levenshtein's result found")
 		}
+		// the first candidate always becomes the minimum: the running minimum starts from the first candidate's distance,
+		// or from a sentinel together with a first-candidate test in the loop — never from a made-up finite bound
+		firstTest := false
+		for b := range cl.Blocks {
+			if iff, ok := b.Instrs[len(b.Instrs)-1].(*ssa.If); ok {
+				l := c.cond(iff.Cond)
+				if strings.HasPrefix(l.Term, "lt(phi{") && strings.HasSuffix(l.Term, ", 0)") || strings.HasPrefix(l.Term, "eq(0, phi{") || strings.HasPrefix(l.Term, "eq(0, rangeindex") {
+					firstTest = true
+				}
+			}
+		}
+		for _, in := range cl.Header.Instrs {
+			p, ok := in.(*ssa.Phi)
+			if !ok {
+				break
+			}
+			isMin := false
+			for _, o := range c.originsOf(p, in) {
+				if call, isCall := o.Val.(*ssa.Call); isCall && c.calleeName(call.Common()) == "levenshtein" && cl.Blocks[call.Block()] {
+					isMin = true
+				}
+			}
+			if !isMin || relType(c, p.Type()) != "int" {
+				continue
+			}
+			for i, e := range p.Edges {
+				if cl.Blocks[p.Block().Preds[i]] {
+					continue
+				}
+				t := c.term(e)
+				_, isConst := e.(*ssa.Const)
+				okInit := t == "call:levenshtein(P0, idx(P1, 0))" || (isConst && firstTest)
+				r.Check(okInit, "MINIMUM", cn, "the first candidate always becomes the running minimum", c.ipos(p), "initial minimum = distance of choices[0], or a sentinel with a first-candidate test in the loop", "the running minimum starts at "+trunc(t, 60)+" without a first-candidate test: when every candidate is farther than that, choices[0] is returned with a made-up distance")
+			}
+		}
 		// every candidate is examined: the index runs over all of choices (from 0, or from 1 when
 		// the first candidate initialises the minimum)
 		okIdx := false
